@@ -90,7 +90,7 @@ class C03(IRProp):
     id = "C03"
     prop_file = "Properties/C03.v"
     tag = "c03"
-    genopts = dict(with_aux=False, with_cfi=False, with_data=False, nfun_max=2, closed_tail=True, to_proxy=False)
+    genopts = dict(with_aux=False, with_cfi=False, with_data=False, nfun_max=2, closed_tail=True, to_proxy=False, shared_ret_proxy=0.3)
     trusted_base = IRProp.base_trusted + ["capstone as the independent disassembler of the oracle"]
     assumptions = []
     level_rule = ("random x86-64 modules whose input CFG is the control flow of their listing (checked by the same oracle before rewriting); "
